@@ -13,13 +13,13 @@ from mc.common import HarnessError, Stats, pmap, safe, shards
 PROPERTY = 'C11'
 LEVEL = 'exploration'
 RULE = ('(A; 2-row frames over the full alphabet, in the thorough tier also 3-row frames over {"", a, "a,b-c", ab, "a "}) each constructor alone (multi-value expansion of x / x;y, sub-features x->y, y->x, x<->y, x->y;y<->x, interactions, noise controls) on every 2-column frame with '
-        '2 rows (quick) / 3 rows (thorough) over {"", a, b, "a,b-c", "b-a", "{}", ab, "a "}; transformations on numeric columns over {"", 1, 2, -1}; '
+        '2 rows (quick) / 3 rows (thorough) over {"", a, b, "a,b-c", "{", "{}", ab, "a "}; transformations on numeric columns over {"", 1, 2, -1}; '
         '(B) all 2^5 subsets of the construction flags (+ 3MR heuristic) through compute_batch_ranking on frames (x multi-valued, y selector, n numeric, label) with the frame recorded '
         'after every step. Oracle: previous frame is an exact prefix (columns, values, row order), new columns have one non-missing value per row, MULTIEX / SUBFEATURE / CONTROL-target '
         'rules recomputed, triplet names = columns of the final frame; sequence differential over <= 3 successive batches per flag (final frame + triplets vs a pristine process state). distinct_nontrivial = (frame, constructor/flag-set) cases that append at least one column')
 ASSUMPTIONS = ['seed lists whose one-sided entries share the source feature but differ in the selector are outside the alphabet (their column names coincide by construction of the naming scheme)']
 
-CELLS = ['', 'a', 'b', 'a,b-c', 'b-a', '{}', 'ab', 'a ']   # token 'ab' contains the tokens 'a' and 'b' (membership must be by token, not by substring); 'a ' differs from 'a' only by trailing whitespace
+CELLS = ['', 'a', 'b', 'a,b-c', '{', '{}', 'ab', 'a ']   # '{' is a fragment of the default missing-symbol option ',{}' but not a missing symbol   # token 'ab' contains the tokens 'a' and 'b' (membership must be by token, not by substring); 'a ' differs from 'a' only by trailing whitespace
 MISSING = {'', '{}'}
 
 
@@ -412,6 +412,11 @@ def _enrich_sets(_):
     return st
 
 
+def _formula_text(job):
+    from mc.checks.c12 import _formula_text_job
+    return _formula_text_job(job)
+
+
 def seq_menu(fl):
     return [(ri, tuple(fl)) for ri in range(len(SEQ_ROWS))]
 
@@ -424,7 +429,7 @@ def _seqdiff(fl):
 
 def _dispatch(item):
     k, job = item
-    return {'alone': _alone, 'tr': _transform_alone, 'batch': _batch, 'seqdiff': _seqdiff, 'enrich': _enrich_sets}[k](job)
+    return {'alone': _alone, 'tr': _transform_alone, 'batch': _batch, 'seqdiff': _seqdiff, 'enrich': _enrich_sets, 'formula_text': _formula_text}[k](job)
 
 
 def run(ctx):
@@ -440,6 +445,7 @@ def run(ctx):
         jobs += [('batch', (2, lo, hi, ('MI-numba-randomized',))) for lo, hi in shards(18 ** 2, 48)]
         jobs += [('batch', (1, lo, hi, ('MI-numba-3mr',))) for lo, hi in shards(18, 6)]
     jobs.append(('enrich', None))
+    jobs.append(('formula_text', None))
     jobs += [('seqdiff', fl) for fl in (('transformers',), ('multivalue',), ('subfeatures',), ('interaction',), ('noise',), tuple(FLAGS))]
     for st in pmap(_dispatch, jobs):
         ctx.stats.merge(st)
@@ -451,6 +457,8 @@ def run(ctx):
 def eval_case(case):
     if case['kind'] == 'seqdiff':
         return seqdiff.replay(seq_call, seq_menu(tuple(case['flags'])), case['seq'])
+    if case['kind'] == 'formula_text':
+        return [v['what'] for v in _formula_text(None).violations]
     if case['kind'] == 'enrich_sets':
         return [v['what'] for v in _enrich_sets(None).violations]
     if case['kind'] == 'alone':
